@@ -313,6 +313,61 @@ def rule_same(ctx, rep):
                       "%d calls to Project::semantic, %d direct analysis calls" % (len(cs), len(other)))
 
 
+def rule_idorigin(ctx, rep, rid="R-C11-idorigin"):
+    """The editor and the command line must give one file one identity: both build FileIds with FileId::from_path of a file-system
+    path (the editor: the path `Url::to_file_path` decodes).  A FileId built from the URL's text (`url.path()`, `as_str()`: still
+    percent-encoded) names the same file differently - files sort differently, and two spellings of one URL become two documents."""
+    r = rep.rule(rid, "every FileId made in plc2x comes from FileId::from_path, and in the LSP adapter its argument derives from Url::to_file_path",
+                 floor=3, floor_what="FileId constructions in plc2x")
+    n = 0
+    for b in sorted(ctx.prog.bodies.values(), key=lambda x: x.id):
+        if b.f["crate"] != "ironplcc" or "::test" in norm(b.id):
+            continue
+        k = 0
+        for c in sorted(b.calls(), key=lambda c: (c.loc[0], c.loc[1])):
+            cal = c.callee or ""
+            if not cal.startswith("ironplc_dsl::core::FileId::") and "as core::convert::From" not in cal:
+                continue
+            nm = cal.split("::")[-1]
+            if "FileId" not in cal or nm in ("clone", "fmt", "eq", "hash", "cmp", "partial_cmp", "to_string", "default", "new"):
+                continue
+            k += 1
+            n += 1
+            fn = norm(b.id).replace("ironplcc::", "")
+            inst = "%s|FileId::%s#%d" % (fn, nm, k)
+            where = loc_str(b.f, c.loc)
+            if nm == "from_dir_entry":
+                r.ok(inst, where, "the path of a directory entry (same text as from_path(entry.path()))")
+                continue
+            if nm != "from_path":
+                r.finding(inst + "|not-from-path", where, "a FileId is built with %s: the same file gets a different identity than the one `check` gives it" % nm)
+                continue
+            if "lsp" in fn.split("::")[0]:
+                # the path argument must come from Url::to_file_path
+                cur = op_place(c.args[0]) if c.args else None
+                ok = False
+                for _ in range(8):
+                    if cur is None:
+                        break
+                    rt = b.root(cur)
+                    d = b.single_def(rt[0])
+                    if d and d[0] == "call":
+                        if (d[2].callee or "").endswith("Url::to_file_path"):
+                            ok = True
+                            break
+                        cur = op_place(d[2].args[0]) if d[2].args else None
+                    elif d and d[0] == "stmt" and d[3][0] in ("use", "ref", "cast"):
+                        cur = op_place(d[3][1]) if d[3][0] == "use" else (d[3][2] if d[3][0] == "ref" else op_place(d[3][2]))
+                    else:
+                        break
+                if ok:
+                    r.ok(inst, where, "path from Url::to_file_path")
+                else:
+                    r.finding(inst + "|path-not-from-to_file_path", where, "the path handed to FileId::from_path does not come from Url::to_file_path")
+            else:
+                r.ok(inst, where)
+
+
 def rule_keyorder(ctx, rep, rid="R-C11-keyorder"):
     """The analysis is order-sensitive (which of two duplicates is "the second", which error comes first), so the order in which the
     project's sources reach it must be a function of the sources themselves.  `FileBackedProject.sources` is a map ordered by
@@ -404,6 +459,7 @@ def run(ctx, rep):
     rule_same(ctx, rep)
     rule_stateless(ctx, rep)
     rule_keyorder(ctx, rep)
+    rule_idorigin(ctx, rep)
     from rules import c06_globals
     c06_globals.run(ctx, rep, rid="R-C11-globals")
     from rules.c05 import rule_units
